@@ -33,10 +33,10 @@ type shape struct{ name, text string }
 
 // command -> argument shapes (missing / valid / malformed)
 var alphabet = map[string][]shape{
-	"CAPABILITY":   {{"valid", "CAPABILITY"}},
-	"NOOP":         {{"valid", "NOOP"}},
-	"LOGOUT":       nil, // ends the connection: exercised separately
-	"LOGIN":        {{"missing", "LOGIN"}, {"one", "LOGIN alice"}, {"valid", "LOGIN alice@example.com pw"}, {"uninitialised", "LOGIN prov@example.com pw"},
+	"CAPABILITY": {{"valid", "CAPABILITY"}},
+	"NOOP":       {{"valid", "NOOP"}},
+	"LOGOUT":     nil, // ends the connection: exercised separately
+	"LOGIN": {{"missing", "LOGIN"}, {"one", "LOGIN alice"}, {"valid", "LOGIN alice@example.com pw"}, {"uninitialised", "LOGIN prov@example.com pw"},
 		{"refused-unknown-name", "LOGIN mallory@example.com wrong"}, {"refused-foreign-domain", "LOGIN eve@elsewhere.example wrong"}, {"refused-local-name", "LOGIN ghost wrong"}},
 	"AUTHENTICATE": {{"missing", "AUTHENTICATE"}, {"unknown", "AUTHENTICATE CRAM-MD5"}},
 	"LIST":         {{"missing", "LIST"}, {"valid", `LIST "" "*"`}, {"delim", `LIST "" ""`}},
@@ -44,29 +44,32 @@ var alphabet = map[string][]shape{
 	"CREATE":       {{"missing", "CREATE"}, {"valid", "CREATE c06box"}},
 	"DELETE":       {{"missing", "DELETE"}, {"valid", "DELETE c06box"}},
 	"RENAME":       {{"missing", "RENAME a"}, {"valid", "RENAME c06box c06box2"}},
-	"SELECT":       {{"missing", "SELECT"}, {"valid", "SELECT INBOX"}, {"nosuch", "SELECT nosuch"}},
-	"EXAMINE":      {{"missing", "EXAMINE"}, {"valid", "EXAMINE INBOX"}, {"nosuch", "EXAMINE nosuch"}},
-	"STATUS":       {{"missing", "STATUS INBOX"}, {"valid", "STATUS INBOX (MESSAGES UIDNEXT)"}, {"baditem", "STATUS INBOX (BOGUS)"}},
-	"SUBSCRIBE":    {{"missing", "SUBSCRIBE"}, {"valid", "SUBSCRIBE INBOX"}},
-	"UNSUBSCRIBE":  {{"missing", "UNSUBSCRIBE"}, {"valid", "UNSUBSCRIBE nosuch"}},
-	"NAMESPACE":    {{"valid", "NAMESPACE"}},
-	"APPEND":       {{"missing", "APPEND"}, {"nosize", "APPEND INBOX"}, {"nosuch", "APPEND nosuch {5}"}},
-	"FETCH":        {{"missing", "FETCH 1"}, {"valid", "FETCH 1:* (UID FLAGS)"}, {"badset", "FETCH x (UID)"}, {"body", "FETCH 1 BODY[]"}},
-	"SEARCH":       {{"missing", "SEARCH"}, {"valid", "SEARCH ALL"}, {"charset", "SEARCH CHARSET KOI8-R ALL"}},
-	"STORE":        {{"missing", "STORE 1"}, {"valid", `STORE 1 +FLAGS (\Seen)`}, {"baditem", "STORE 1 BOGUS (x)"}},
-	"COPY":         {{"missing", "COPY"}, {"valid", "COPY 1 Sent"}, {"nosuch", "COPY 1 nosuch"}},
-	"EXPUNGE":      {{"valid", "EXPUNGE"}},
-	"CHECK":        {{"valid", "CHECK"}},
-	"CLOSE":        {{"valid", "CLOSE"}},
-	"UNSELECT":     {{"valid", "UNSELECT"}},
-	"UID FETCH":    {{"missing", "UID FETCH"}, {"valid", "UID FETCH 1:* (FLAGS)"}},
-	"UID SEARCH":   {{"missing", "UID SEARCH"}, {"valid", "UID SEARCH ALL"}},
-	"UID STORE":    {{"missing", "UID STORE 1"}, {"valid", `UID STORE 1 +FLAGS (\Seen)`}},
-	"UID COPY":     {{"missing", "UID COPY 1"}, {"valid", "UID COPY 1 Sent"}},
-	"UID EXPUNGE":  {{"missing", "UID EXPUNGE"}, {"valid", "UID EXPUNGE 1:*"}},
-	"UID":          {{"missing", "UID"}, {"unknown", "UID BOGUS 1"}},
-	"BOGUS":        {{"unknown", "BOGUS"}, {"lower", "noop"}},
-	"IDLE":         nil, // continuation: exercised in sequences
+	"SELECT": {{"missing", "SELECT"}, {"valid", "SELECT INBOX"}, {"nosuch", "SELECT nosuch"},
+		// names in the role hierarchy that are refused at different points of the resolution
+		{"roles-short", "SELECT Roles/x"}, {"roles-unknown", "SELECT Roles/nobody@example.com/INBOX"}, {"roles-bare", "SELECT Roles"}},
+	"EXAMINE": {{"missing", "EXAMINE"}, {"valid", "EXAMINE INBOX"}, {"nosuch", "EXAMINE nosuch"},
+		{"roles-short", "EXAMINE Roles/x"}, {"roles-unknown", "EXAMINE Roles/nobody@example.com/Sent"}},
+	"STATUS":      {{"missing", "STATUS INBOX"}, {"valid", "STATUS INBOX (MESSAGES UIDNEXT)"}, {"baditem", "STATUS INBOX (BOGUS)"}},
+	"SUBSCRIBE":   {{"missing", "SUBSCRIBE"}, {"valid", "SUBSCRIBE INBOX"}},
+	"UNSUBSCRIBE": {{"missing", "UNSUBSCRIBE"}, {"valid", "UNSUBSCRIBE nosuch"}},
+	"NAMESPACE":   {{"valid", "NAMESPACE"}},
+	"APPEND":      {{"missing", "APPEND"}, {"nosize", "APPEND INBOX"}, {"nosuch", "APPEND nosuch {5}"}},
+	"FETCH":       {{"missing", "FETCH 1"}, {"valid", "FETCH 1:* (UID FLAGS)"}, {"badset", "FETCH x (UID)"}, {"body", "FETCH 1 BODY[]"}},
+	"SEARCH":      {{"missing", "SEARCH"}, {"valid", "SEARCH ALL"}, {"charset", "SEARCH CHARSET KOI8-R ALL"}},
+	"STORE":       {{"missing", "STORE 1"}, {"valid", `STORE 1 +FLAGS (\Seen)`}, {"baditem", "STORE 1 BOGUS (x)"}},
+	"COPY":        {{"missing", "COPY"}, {"valid", "COPY 1 Sent"}, {"nosuch", "COPY 1 nosuch"}},
+	"EXPUNGE":     {{"valid", "EXPUNGE"}},
+	"CHECK":       {{"valid", "CHECK"}},
+	"CLOSE":       {{"valid", "CLOSE"}},
+	"UNSELECT":    {{"valid", "UNSELECT"}},
+	"UID FETCH":   {{"missing", "UID FETCH"}, {"valid", "UID FETCH 1:* (FLAGS)"}},
+	"UID SEARCH":  {{"missing", "UID SEARCH"}, {"valid", "UID SEARCH ALL"}},
+	"UID STORE":   {{"missing", "UID STORE 1"}, {"valid", `UID STORE 1 +FLAGS (\Seen)`}},
+	"UID COPY":    {{"missing", "UID COPY 1"}, {"valid", "UID COPY 1 Sent"}},
+	"UID EXPUNGE": {{"missing", "UID EXPUNGE"}, {"valid", "UID EXPUNGE 1:*"}},
+	"UID":         {{"missing", "UID"}, {"unknown", "UID BOGUS 1"}},
+	"BOGUS":       {{"unknown", "BOGUS"}, {"lower", "noop"}},
+	"IDLE":        nil, // continuation: exercised in sequences
 }
 
 var selectedState = map[string]bool{"FETCH": true, "SEARCH": true, "STORE": true, "COPY": true, "EXPUNGE": true, "CHECK": true, "CLOSE": true, "UNSELECT": true,
